@@ -12,6 +12,8 @@
 (***************************************************************************)
 EXTENDS Blocks, Json
 
+CONSTANT Deep       \* thorough tier: also every set of three banned kinds
+
 Res(f, name) == [cls |-> "ok", file |-> name, path |-> name]
 VARIABLES proj, banned
 vars == <<proj, banned>>
@@ -24,7 +26,7 @@ Projects ==
    p2 |-> [root |-> DocOf(<<"t1", "t2", "urlA", "getB", "mac", "useM">>) \o Unused, inc |-> <<>>],
    p3 |-> [root |-> DocOf(<<"tag1", "tag2", "t1">>) \o <<IncTok("inc.jst")>> \o BlockTab["urlT"], inc |-> BlockTab["urlA"] \o BlockTab["e1"]]]
 
-Init == proj \in DOMAIN Projects /\ banned \in {{k1, k2} : k1, k2 \in Kinds}     \* all singletons and pairs
+Init == proj \in DOMAIN Projects /\ banned \in ({{k1, k2} : k1, k2 \in Kinds} \cup (IF Deep THEN {{k1, k2, k3} : k1, k2, k3 \in Kinds} ELSE {}))     \* singletons, pairs (and triples)
 Next == UNCHANGED vars
 Spec == Init /\ [][Next]_vars
 
